@@ -7,7 +7,8 @@ state that this list is exactly the one the models and the scale classes of the 
 
 * no tolerance at all in `ParetoDominance.h`, the three sorters, the hypervolume calculators and the contribution
   algorithms (they are order-theoretic / exact, hence scale-free: `rankSpec_scale`, `hvSpec_scale_shift`);
-* exactly two absolute tolerances `1.e-10` in `HypervolumeSubsetSelection2D::upperEnvelope` (pop tests), which the model
+* exactly two tolerances `1.e-10` in `HypervolumeSubsetSelection2D::upperEnvelope` (pop tests; RELATIVE to the compared
+  values since /repo de702950, absolute before: finding F-C13-5), which the model
   treats as exact comparisons — sound on the scale classes `2^e`, `e ≥ -16`, the check restricts `ssp` to (finding
   C13-SSP-ABSTOL below that);
 * the identifier `epsilon` only as the accessor of the approximation algorithm (not an exact algorithm).
@@ -25,8 +26,8 @@ theorem c13_tolerances_inventory :
       ("HypervolumeCalculator.h", "identifier", "epsilon", "return m_approximationAlgorithm.epsilon()"),
       ("HypervolumeContribution.h", "identifier", "epsilon", "return m_approximationAlgorithm.epsilon()"),
       ("HypervolumeContribution.h", "identifier", "epsilon", "return m_approximationAlgorithm.epsilon()"),
-      ("HypervolumeSubsetSelection2D.h", "literal", "1.e-10", "if (d1 <= d2 || std::abs(d1-d2) < 1.e-10)"),
-      ("HypervolumeSubsetSelection2D.h", "literal", "1.e-10", "if (d1 < d2 || std::abs(d1-d2) < 1.e-10)")] := rfl
+      ("HypervolumeSubsetSelection2D.h", "literal", "1.e-10", "if (d1 <= d2 || std::abs(d1-d2) <= 1.e-10 * std::max(std::abs(d1), std::abs(d2)))"),
+      ("HypervolumeSubsetSelection2D.h", "literal", "1.e-10", "if (d1 < d2 || std::abs(d1-d2) <= 1.e-10 * std::max(std::abs(d1), std::abs(d2)))")] := rfl
 
 /-- all fourteen anchored files were scanned -/
 theorem c13_tolerances_scanned_all : scanned.length = 14 ∧
